@@ -99,6 +99,17 @@ CHECKS = {
              'are classified by independent lexical definitions into must-accept / must-reject / unspecified and compared '
              'with STRICT acceptance, the re-encoded text, TOLERANT verbatim preservation and utils.check_*.',
         note='trusted: python calendar module, reference regular expressions; unspecified band (years<1000, +14MM/-12MM, .5/5., +SI) never reported'),
+    'C14': dict(
+        engine=E1, design_ref='DESIGN.md section 7 C14',
+        technique='exhaustive enumeration over the version tables of every child position x every pair of spellings (HL7 name, long '
+                  'name, positional path; upper / lower / mixed case) x {set, get, delete} on the real attribute API; oracle: object identity',
+        text='For every segment of 2.5 and 2.7 and every third segment of the other versions (thorough: all 1,657) every field, '
+             'component and subcomponent is written through each spelling and read back through every other spelling: the proxy '
+             'must hold exactly the element written (identity) with the written value; after a delete through one spelling every '
+             'other spelling must be empty. ~3.4 million (write spelling, read spelling) pairs in quick. Per parent, names that '
+             'designate no child (a child of another parent, index past the last, index 99, malformed paths) must raise '
+             'ChildNotFound / ChildNotValid for get, set and delete and leave the parent unchanged.',
+        note='trusted: the tables as definition of names; 251 long names excluded (duplicated in the parent or equal to an attribute of the element class)'),
     'C15': dict(
         engine=E1, design_ref='DESIGN.md section 7 C15',
         technique='exhaustive enumeration of mutation families of one seed message per version and of all short strings over a '
